@@ -271,7 +271,7 @@ def correspond(ctx):
             'rule': 'leaves: %d points per form for deriv and deriv2 (interval-certified against the code); expression trees to depth 3 over full/deriv-only/plain leaves '
                     '(plus, product, pow, trans; API and potable routes) and multi-range potentials with mixed analytic availability: flags has_deriv/has_deriv2 exact, '
                     'value/deriv/deriv2 interval-certified; non-trivial = a leaf derivative point or a non-leaf expression; distinct by canonical JSON' % per,
-            'samples': leaf_cases[:1] + tcases[:2], 'distribution': dist, 'disagreements': dis[:20], 'oracle_cases': tcases + leaf_cases[:: 3]}
+            'samples': leaf_cases[:1] + tcases[:2], 'distribution': dist, 'disagreements': dis[:20], 'oracle_cases': defn_corpus() + tcases + leaf_cases[:: 3]}
 
 def _depth(t):
     if t['op'] == 'leaf': return 0
@@ -306,6 +306,21 @@ def richardson(f, x, h=1e-3):
     d2 = (f(x + h / 2) - f(x - h / 2)) / h
     return (4 * d2 - d1) / 3
 
+def defn_build(d):
+    from atsim.potentials.config import Configuration
+    txt = '[Tabulation]\ntarget : LAMMPS\nnr : 5\ncutoff : 1.0\n[Pair]\nA-B : %s\n' % d
+    return Configuration().read(io.StringIO(txt)).potentials[0].potentialFunction
+
+def defn_corpus():
+    """fixed potable definitions (judged by the statement alone: offered derivatives against the numerical derivative of the energy the
+    same callable returns): powers whose exponent is itself a multi-range definition of constants, modifiers at the end of a spline"""
+    ds = [('pow(as.bornmayer 1000.0 0.5, as.constant 2.0 >=3.0 as.constant 1.0)', [2.0, 3.5, 4.25]), ('pow(as.bornmayer 1000.0 0.5, >1 as.constant 2.0)', [0.5, 1.5]),
+          ('pow(as.polynomial 1.0 0.5, as.constant 3.0)', [0.75, 2.0]), ('pow(as.bornmayer 10.0 1.5, as.polynomial 1.0 0.25)', [1.25]),
+          ('spline(>0 as.zbl 14 8 >0.8 exp_spline >1.4 sum(as.buck 18003.7572 0.2052048149 133.5381, as.coul 2.4 -1.2))', [1.0, 1.3, 1.6]),
+          ('sum(as.constant 1.0, >=2.0 sum(as.constant 10.0, as.polynomial 0.0 100.0))', [0.5, 2.5]), ('product(as.polynomial 1.0 -0.2, as.lj 0.0103 3.4)', [5.0, 3.4, 4.0]),
+          ('trans(>=0 as.polynomial 1.0 2.0 1.5, as.constant -2.0)', [1.0, 2.5])]
+    return [{'defn': d, 'r': r} for d, rs in ds for r in rs]
+
 def oracle(case):
     fails = []
     if 'form' in case and 'method' in case:
@@ -315,7 +330,8 @@ def oracle(case):
         checks = [('deriv', f, f.deriv), ('deriv2', f.deriv, f.deriv2)]
     else:
         try:
-            if 'multi' in case: f = py_multi(case)
+            if 'defn' in case: f = defn_build(case['defn'])
+            elif 'multi' in case: f = py_multi(case)
             elif case['route'] == 'potable': f, _ = potable_build(case['tree'])
             else: f = py_build(case['tree'])
         except Exception as e:
@@ -353,9 +369,21 @@ def oracle(case):
     return fails
 
 def search_cases(rng, n):
+    for c in defn_corpus(): yield c
     for _ in range(n):
         if rng.random() < 0.35: yield gen_multi_case(rng)
         else: yield gen_case(rng, rng.choice([1, 2, 3]))
 
-def finding_for(case, fails): return None
-def replay_finding(f): return False
+def finding_for(case, fails):
+    # C07-pow-negbase: the offered derivative of a power with a negative base raises instead of returning the slope
+    if 'defn' in case and 'pow(' in case['defn'] and fails and all('math domain error' in f for f in fails): return 'C07-pow-negbase'
+    return None
+def replay_finding(f):
+    if f.get('id') == 'C07-pow-negbase':
+        g = defn_build(f['input']['defn']); r = f['input']['r']
+        e = g(r)
+        if not (math.isfinite(e) and abs(richardson(g, r) - 2 * (-1.0 + 0.25 * r) * 0.25) < 1e-6): return False      # the energy is (0.25 r - 1)^2 and differentiable
+        try: g.deriv(r)
+        except ValueError: return True
+        return False
+    return False
